@@ -97,6 +97,7 @@ var mClonePath = Mutant{"Clone Ident forgets the path", fClone, "\t\t// Path: Pa
 var mPrependClip = Mutant{"Prepend appends to the capacity-clipped argument", "decorations.go", "\t*d = append(append([]string{}, decs...), *d...) // ensure we don't modify decs", "\t*d = append(decs[:len(decs):len(decs)], *d...)"}
 
 var mAttachedStops = Mutant{"findDecoration gives up at a comment that is already attached", fDF, "\t\tcase *commentFragment:\n\t\t\tif current.Attached != nil {\n\t\t\t\tcontinue\n\t\t\t}\n\t\t\tif direction == 1 {", "\t\tcase *commentFragment:\n\t\t\tif current.Attached != nil {\n\t\t\t\treturn\n\t\t\t}\n\t\t\tif direction == 1 {"}
+var mAttachedRecollected = Mutant{"findDecoration collects a comment that is already attached a second time", fDF, "\t\tcase *commentFragment:\n\t\t\tif current.Attached != nil {\n\t\t\t\tcontinue\n\t\t\t}\n", "\t\tcase *commentFragment:\n\t\t\tif current.Attached != nil && stopAtNewline {\n\t\t\t\tcontinue\n\t\t\t}\n"}
 var mAdjustedLine = Mutant{"fragment() marks comment lines with //line-adjusted numbers", fDF, "startLine := f.position(c.Pos()).Line", "startLine := f.Fset.Position(c.Pos()).Line"}
 
 var mCgoNamed = Mutant{"updateImports sends the cgo pseudo-import through name selection", fR, "\t\tif path == \"C\" {\n\t\t\t// no conflict checking for the cgo pseudo-import: it is always called C in the code\n\t\t\t// and never has an alias\n\t\t\tr.packageNames[path], aliases[path] = \"C\", \"\"\n\t\t\tcontinue\n\t\t}\n", ""}
@@ -149,7 +150,7 @@ var SelfTestMutants = map[string][]Mutant{
 	"C01": {mTokenLen, mDropTok, mElseGuard, mFragNoChild, mNoParseComments, mFileScope, mDecKey, mCrossFile, mAvoidGroup, mEndAtPos, mInnerAtToken, mAttachedStops, mAdjustedLine, mTextLen, mCommentEnd, mLineAtNodeEnd, mHangOnlyEmpty, mHangOneLevel, mLineCommentAtEnd, mRawLitCommentField},
 	"C02": {mDecKey, mCloneDropDec, mSpaceLast, mCondDec, mCrossFile, mEndAtPos, mAttachedStops, mHangOnlyEmpty},
 	"C03": {mDropTok, mDropChildDeco, mFragNoChild, mElseGuard, mCrossFile, mAvoidGroup, mAdjustedLine, mTextLen, mCommentEnd, mLineAtNodeEnd, mSpacingOverwritten, mSpacingOr, mGroupPerComment},
-	"C04": {mSwapDecs, mEndFlag, mCondDec, mRawLitCommentField},
+	"C04": {mSwapDecs, mEndFlag, mCondDec, mRawLitCommentField, mAttachedRecollected},
 	"C05": {mSpaceNoFresh, mSpaceEmpty3, mSpaceLast, mNoAdvanceNL, mLineAtNodeEnd, mLineCommentAtEnd},
 	"C06": {mCloneAlias, mCloneDropDec, mCloneShareDec, mDupFlag, mDeleteReg, mClonePath},
 	"C07": {mNoSort, mIdentNoPeriod, mResolveAll, mCgoNamed, mCgoEmptyName, mParensAlwaysDropped, mAskResolverForC, mVendorRawScan, mVendorRawIdent, mBlankNotRequired, mKeepAlways, mMarkInverted, mFinalPassInverted, mConflictNoUpdate, mRparenDropped, mDotNameKept},
